@@ -213,6 +213,10 @@ WRITE_CTX = ["same", "block", "else_block", "function", "method", "loop_header",
              # -- hence capturing -- the outer constant) and then writes, directly or from a nested block
              "fn_shadow", "fn_shadow_block", "fn_shadow_read", "fn_shadow_read_block"]
 SHADOW_CTX = ("fn_shadow", "fn_shadow_block", "fn_shadow_read", "fn_shadow_read_block")
+# `modify` only: several modifies of the same captured variable in ONE inner function.  With the constant the first
+# one is already refused; WITHOUT it the program is valid and MUST be accepted (regression of /repo 745d438)
+REMODIFY_CTX = ("fn_modify_twice_block", "fn_modify_read_modify", "fn_modify_read_modify_block")
+WRITE_CTX += list(REMODIFY_CTX)
 BINDING_FORMS = ("assign", "assign_typed", "redeclare", "counter", "unpack", "unpack_after_fresh", "unpack_after_mutable", "unpack_third")
 A = ("var", "a")
 
@@ -317,6 +321,10 @@ def header_stmts(form, vt, op, target=A, variant="while"):
 def wrap(ctx, stmts, shape="scalar", vt="int"):
     if ctx == "same":
         return stmts
+    if ctx in REMODIFY_CTX:
+        read = [("print", observe_expr(shape))] if "read" in ctx else []
+        again = [("if", ("var", "true"), list(stmts), None)] if ctx.endswith("block") else list(stmts)
+        return [("assign", False, False, "g", None, ("fn", [], None, list(stmts) + read + again)), ("expr", ("call", ("var", "g"), []))]
     if ctx in SHADOW_CTX:
         pre = [("print", observe_expr(shape))] if "read" in ctx else []
         local = decl_stmts(shape, vt, False)
@@ -343,6 +351,8 @@ def build(dctx, form, wctx, vt, op, const=True, hvariant="while"):
     """-> (files{name: AST}, entry) or None when the combination cannot be written down"""
     v = VT[vt]
     shape = shape_of(form)
+    if wctx in REMODIFY_CTX and form != "modify":
+        return None
     if wctx == "other_module":
         # the constant lives in module m; main writes THROUGH the module (m.a ...), or to an imported copy
         if dctx != "module":
@@ -382,7 +392,7 @@ def build(dctx, form, wctx, vt, op, const=True, hvariant="while"):
         else:
             prog = [MARK] + pre + [("if", ("var", "true"), body, None), END]
         return {"main.ms": prog}
-    if dctx in ("class", "import") and wctx in SHADOW_CTX:
+    if dctx in ("class", "import") and wctx in SHADOW_CTX + REMODIFY_CTX:
         return None
     if dctx == "class":
         # the class name `a` is the constant; the neighbour is a non-const variable holding a constructor
@@ -713,6 +723,12 @@ def run(ctx):
             nv = verdict(*n)
             if nv == "runtime":
                 nb_runtime.append(tid)
+            if nv != "accepted" and t["wctx"] in REMODIFY_CTX:
+                spec_fail += 1
+                ctx.report("valid-program-rejected:%s" % t["wctx"],
+                           "a valid program (no constant involved: `modify` of one captured variable several times in one function, %s) is not accepted: %s"
+                           % (tid, nv), {"triple": tid, "files": t["ntexts"], "observed": {"verdict": nv, "rc": n[0], "stdout": n[1][-1200:], "stderr": n[2][-400:]},
+                                         "how": "write the files into an empty directory and run `mscript run main.ms -q` there"})
             if nv not in ("accepted", "runtime"):
                 d = DIAG.search(n[1])
                 why = [l for l in n[1].splitlines() if l.strip().startswith("=")]
